@@ -538,7 +538,7 @@ def gen_misplaced(rng, max_files=25):
     tpl = Template(dirs, name)
     origin = gen_origin(rng, tpl)
     if origin.year < 1000 or origin.year > 9000:
-        origin = origin.replace(year=rng.randint(1990, 2030))
+        origin = origin.replace(year=rng.randint(1990, 2030), day=min(origin.day, 28))
     unit = tpl.start_unit()
     step = rng.choice([dt.timedelta(hours=5), dt.timedelta(hours=13), dt.timedelta(days=1), dt.timedelta(minutes=90)])
     doydir = "{doy}" in dirs
